@@ -43,7 +43,7 @@ def m_subtime_divergence(v: dict) -> bool:
 def m_incomparable_delays(v: dict) -> bool:
     """C05/C06: run() dies with the tiered-time 'incomparable' assertion while
     computing minimal delays (paths that leave and re-enter a group)."""
-    return (v.get("kind") in ("run_failed", "crash_instead_of_accept")
+    return (v.get("kind") in ("run_failed", "crash_instead_of_accept", "crash_instead_of_reject")
             and v.get("type") == "AssertionError" and "incomparable" in (v.get("msg") or ""))
 
 
